@@ -11,7 +11,10 @@ package req
 // faults: a table entry that is mis-handled only shows when nothing else in the stream rejects
 // it first, which for a 1-in-15 entry of a 1-in-16 class can take more than one quick run.)
 
-import "strings"
+import (
+	"fmt"
+	"strings"
+)
 
 type c04SF struct {
 	table  string
@@ -92,6 +95,56 @@ func c04SingleFault() []c04SF {
 		}
 		add("connection-2", "HTTP/1.1 200 OK\r\nConnection: x\r\nConnection: "+v+"\r\nContent-Length: 5\r\n\r\nhello"+rest)
 	}
+	// round 5: Connection / Transfer-Encoding / Content-Length options spread over several field lines
+	// and several tokens (comma / blank / tab separated, empty elements, name case variants, other
+	// fields in between): the decisive token on the first, a middle or the last line.
+	for _, ls := range [][]string{{"x-foo", "close"}, {"close", "x-foo"}, {"x-foo", "y", "close"}, {"keep-alive", "close"}, {"close", "keep-alive"}, {"x-foo", "keep-alive"},
+		{"keep-alive", "x"}, {"x", "y", "keep-alive"}, {"not close"}, {"close x"}, {"x close"}, {"keep-alive x"}, {"not keep-alive"}, {"x\tclose"}, {"x,close"}, {"x ,close"}, {"x, ,close"}, {"", "close"}, {"close", ""},
+		{"x-foo", "Close"}, {"x", "KEEP-ALIVE"}, {"x;close"}, {"x=close"}, {"closex", "close"}, {"keep-alive", "keep-alive"}, {"close", "close"}, {"x, y", "z, close"}, {"x, close", "y"}, {"upgrade", "close"}} {
+		for _, proto := range []string{"HTTP/1.1", "HTTP/1.0"} {
+			for _, names := range [][]string{{"Connection", "Connection", "Connection"}, {"Connection", "connection", "CONNECTION"}} {
+				for _, between := range []string{"", "X-A: 1\r\n"} {
+					h := ""
+					for i, v := range ls {
+						if i > 0 {
+							h += between
+						}
+						h += names[i] + ": " + v + "\r\n"
+					}
+					add("connection-lines", proto+" 200 OK\r\n"+h+"Content-Length: 5\r\n\r\nhello"+rest)
+				}
+			}
+		}
+	}
+	for _, ls := range [][]string{{"chunked", "chunked"}, {"gzip", "chunked"}, {"chunked", "gzip"}, {"", "chunked"}, {"chunked", ""}, {"identity", "chunked"}, {"chunked, chunked"}, {"gzip, chunked"}, {"chunked,"}, {",chunked"},
+		{"chunked chunked"}, {" chunked "}, {"chunked\t"}, {"Chunked", "chunked"}, {"x", "y", "chunked"}, {"chunked", "chunked", "chunked"}} {
+		for _, names := range [][]string{{"Transfer-Encoding", "Transfer-Encoding", "Transfer-Encoding"}, {"transfer-encoding", "TRANSFER-ENCODING", "Transfer-encoding"}} {
+			for _, between := range []string{"", "X-A: 1\r\n", "Content-Length: 5\r\n"} {
+				h := ""
+				for i, v := range ls {
+					if i > 0 {
+						h += between
+					}
+					h += names[i] + ": " + v + "\r\n"
+				}
+				add("te-lines", "HTTP/1.1 200 OK\r\n"+h+"\r\n"+chunkedBody+rest)
+			}
+		}
+	}
+	for _, ls := range [][]string{{"5", "5", "5"}, {"5", " 5 "}, {"5", "5 5"}, {"5, 5"}, {"5,5", "5"}, {"5", "5,"}, {"5", "\t5"}, {"5", "6", "5"}, {"5", "5", "6"}, {"6", "5", "5"}, {"5", "05"}, {"5", "5", ""}, {"", "5", "5"}} {
+		for _, names := range [][]string{{"Content-Length", "Content-Length", "Content-Length"}, {"content-length", "CONTENT-LENGTH", "Content-length"}} {
+			for _, between := range []string{"", "X-A: 1\r\n"} {
+				h := ""
+				for i, v := range ls {
+					if i > 0 {
+						h += between
+					}
+					h += names[i] + ": " + v + "\r\n"
+				}
+				add("cl-lines", "HTTP/1.1 200 OK\r\n"+h+"\r\nhello"+rest)
+			}
+		}
+	}
 	// chunk-size lines (first chunk, 5 data bytes follow)
 	sizes := []string{"5", "05", "0005", "5;x", "5;x=y", "5 ;x", "5\t;x", "5; x", "5 ", "5\t", "5 \t ", " 5", "\t5", "5;", "5;;", "+5", "-5", "0x5", "5x", "5 5", "", " ", ";x", " ;x", "\t;x", "g",
 		"0000000000000005", "00000000000000005", "000000000000000000005", "ffffffffffffffff", "7fffffffffffffff", "8000000000000000", "10000000000000000", "7ffff9ffffffffff",
@@ -170,6 +223,10 @@ func c04SingleFault() []c04SF {
 		add("pragma-cc", "HTTP/1.1 200 OK\r\nPragma: "+pv+"\r\nCache-Control: max-age=1\r\nContent-Length: 5\r\n\r\nhello"+rest)
 		add("pragma-2", "HTTP/1.1 200 OK\r\nPragma: x\r\nPragma: "+pv+"\r\nContent-Length: 5\r\n\r\nhello"+rest)
 	}
+	// round 5: the chunk-overhead budget at its boundary (limit -1 .. +2), every kind of non-data byte
+	for _, b := range c04ExcessBoundary() {
+		add("excess-boundary", "HTTP/1.1 200 OK\r\nTransfer-Encoding: chunked\r\n\r\n"+b)
+	}
 	// every strict prefix of three clean messages (cut classes, incl. the buffer-multiple corner)
 	for _, m := range []string{"HTTP/1.1 200 OK\r\nContent-Length: 5\r\n\r\nhello", "HTTP/1.1 200 OK\r\nTransfer-Encoding: chunked\r\nTrailer: X-T\r\n\r\n5;e\r\nhello\r\n0\r\nX-T: v\r\n\r\n",
 		"HTTP/1.0 200 OK\r\nX-A: 1\r\n b\r\n\r\nhello"} {
@@ -237,5 +294,87 @@ func c04BytePositions() []c04BytePos {
 	at("connection-value", "HTTP/1.1 200 OK\r\nConnection: ", "close", "\r\nContent-Length: 5\r\n\r\nhello"+rest, []int{0, 2, 4}, false)
 	at("connection-value-1.0", "HTTP/1.0 200 OK\r\nConnection: ", "keep-alive", "\r\nContent-Length: 5\r\n\r\nhello"+rest, []int{0, 4, 9}, false)
 	at("trailer-decl", "HTTP/1.1 200 OK\r\nTransfer-Encoding: chunked\r\nTrailer: ", "X-T", "\r\n\r\n5\r\nhello\r\n0\r\nX-T: v\r\n\r\n"+rest, []int{0, 1, 2}, false)
+	return out
+}
+
+// c04ExcessBoundary (round 5): chunked bodies whose overhead balance (`chunkedReader.excess`:
+// + len(size line incl. LF) + 2, - 16 - 2*n per chunk, clamped at 0, error above 16 KiB after a
+// data chunk) lands at the limit -1 / +0 / +1 / +2, reached through every kind of non-data byte:
+// extensions, blanks before the CRLF, zero padding, many small chunks (lines that fit a 64-byte
+// buffer), bare-LF line ends, with refunds by data-rich chunks before (clamp at 0) and in between,
+// and the last-chunk line, which is never refused for overhead.
+func c04ExcessBoundary() []string {
+	const limit = 16 * 1024
+	var out []string
+	// a size line of exactly L bytes, EOL included
+	ext := func(sz string, L int, eol string) string {
+		return sz + ";" + strings.Repeat("x", L-len(sz)-1-len(eol)) + eol
+	}
+	blanks := func(sz string, L int, eol string) string {
+		return sz + strings.Repeat(" ", (L-len(sz)-len(eol))/2) + strings.Repeat("\t", L-len(sz)-len(eol)-(L-len(sz)-len(eol))/2) + eol
+	}
+	chunk := func(line string, n int) string { return line + strings.Repeat("D", n) + "\r\n" }
+	type step struct {
+		L, n int
+		mk   func(sz string, L int, eol string) string
+		eol  string
+	}
+	build := func(pre []step, fin step, delta int, lastLine string) (string, bool) {
+		ex := 0
+		var sb strings.Builder
+		for _, s := range pre {
+			sb.WriteString(chunk(s.mk(fmt.Sprintf("%x", s.n), s.L, s.eol), s.n))
+			ex += s.L + 2 - 16 - 2*s.n // the line as ReadSlice returns it (CR and LF included) + 2
+			if ex < 0 {
+				ex = 0
+			}
+		}
+		// length of the final line that puts the balance at limit + delta
+		L := limit + delta - ex - 2 + 16 + 2*fin.n
+		sz := fmt.Sprintf("%x", fin.n)
+		if fin.L < 0 { // zero padded to 16 digits
+			sz = fmt.Sprintf("%016x", fin.n)
+		}
+		if L >= 4096 || L < len(sz)+1+len(fin.eol) {
+			return "", false
+		}
+		sb.WriteString(chunk(fin.mk(sz, L, fin.eol), fin.n))
+		sb.WriteString(lastLine + "\r\nREST")
+		return sb.String(), true
+	}
+	rep := func(s step, k int) []step {
+		var o []step
+		for i := 0; i < k; i++ {
+			o = append(o, s)
+		}
+		return o
+	}
+	big := step{L: 4000, n: 1, mk: ext, eol: "\r\n"} // +3984 each
+	fams := []struct {
+		pre  []step
+		fin  step
+		last string
+	}{
+		{rep(big, 4), step{n: 1, mk: ext, eol: "\r\n"}, "0\r\n"},
+		{rep(step{L: 4000, n: 1, mk: blanks, eol: "\r\n"}, 4), step{n: 1, mk: blanks, eol: "\r\n"}, "0\r\n"},
+		{rep(big, 4), step{L: -1, n: 1, mk: ext, eol: "\r\n"}, "0\r\n"},
+		{rep(big, 4), step{n: 1, mk: ext, eol: "\n"}, "0\r\n"},
+		{rep(step{L: 4000, n: 1, mk: ext, eol: "\n"}, 4), step{n: 1, mk: blanks, eol: "\n"}, "0\r\n"},
+		{rep(step{L: 56, n: 1, mk: ext, eol: "\r\n"}, 409), step{n: 1, mk: ext, eol: "\r\n"}, "0\r\n"},
+		{rep(step{L: 36, n: 1, mk: ext, eol: "\r\n"}, 815), step{n: 1, mk: ext, eol: "\r\n"}, "0\r\n"},
+		{append([]step{{L: 5, n: 1000, mk: blanks, eol: "\r\n"}}, rep(big, 4)...), step{n: 1, mk: ext, eol: "\r\n"}, "0\r\n"},
+		{append(rep(big, 4), step{L: 4, n: 100, mk: blanks, eol: "\r\n"}), step{n: 1, mk: ext, eol: "\r\n"}, "0\r\n"},
+		{append(rep(big, 2), append([]step{{L: 5, n: 2000, mk: blanks, eol: "\r\n"}}, rep(big, 4)...)...), step{n: 1, mk: ext, eol: "\r\n"}, "0\r\n"},
+		{rep(big, 4), step{n: 7, mk: ext, eol: "\r\n"}, "0\r\n"},
+		{rep(big, 4), step{n: 1, mk: ext, eol: "\r\n"}, "0;" + strings.Repeat("y", 4000) + "\r\n"},
+		{rep(big, 4), step{n: 1, mk: ext, eol: "\r\n"}, "1;z\r\nD\r\n0\r\n"},
+	}
+	for _, f := range fams {
+		for _, d := range []int{-1, 0, 1, 2} {
+			if st, ok := build(f.pre, f.fin, d, f.last); ok {
+				out = append(out, st)
+			}
+		}
+	}
 	return out
 }
